@@ -430,4 +430,365 @@ theorem redcN_eq (rn : Nat) (up mp ip : List Nat) (hup : Limbs up) (hmp : Limbs 
   have : val up / B ^ n % B ^ n = val up / B ^ n := Nat.mod_eq_of_lt (Nat.div_lt_of_lt_mul hult)
   rw [this]
 
+
+/-! ### memory areas -/
+
+theorem store_length (a : List Nat) (off : Nat) (d : List Nat) : (store a off d).1.length = a.length := by
+  unfold store
+  split
+  · simp only [List.length_append, List.length_take, List.length_drop]; omega
+  · rfl
+
+theorem store_zero (a d : List Nat) (h : d.length ≤ a.length) : store a 0 d = (d ++ a.drop d.length, true) := by
+  unfold store
+  simp [h]
+
+theorem load_zero_append (d r : List Nat) (k : Nat) (hk : k = d.length) : load (d ++ r) 0 k = (d, true) := by
+  unfold load
+  subst hk
+  simp
+
+/-- `MPN_COPY (tp, rp, n); MPN_ZERO (tp + n, n)` then reading `tp[0..2n)`. -/
+theorem store_pad (tp r : List Nat) (n : Nat) (hr : r.length = n) (h : 2 * n ≤ tp.length) :
+    store tp 0 r = (r ++ tp.drop n, true) ∧
+    store (r ++ tp.drop n) n (zeros n) = (r ++ zeros n ++ tp.drop (2 * n), true) ∧
+    load (r ++ zeros n ++ tp.drop (2 * n)) 0 (2 * n) = (r ++ zeros n, true) := by
+  refine ⟨?_, ?_, ?_⟩
+  · rw [store_zero tp r (by omega), hr]
+  · have hz : (zeros n).length = n := zeros_length n
+    have h1 : n + n ≤ (r ++ tp.drop n).length := by
+      simp only [List.length_append, List.length_drop, hr]; omega
+    have h2 : (r ++ tp.drop n).take n = r := by
+      rw [List.take_append_of_le_length (by omega), List.take_of_length_le (by omega)]
+    have h3 : (r ++ tp.drop n).drop (n + n) = tp.drop (2 * n) := by
+      rw [List.drop_append, hr]
+      have : r.drop (n + n) = [] := List.drop_eq_nil_of_le (by omega)
+      rw [this, List.nil_append, List.drop_drop]; congr 1; omega
+    unfold store
+    rw [hz, if_pos h1, h2, h3]
+  · rw [List.append_assoc]
+    have := load_zero_append (r ++ zeros n) (tp.drop (2 * n)) (2 * n) (by simp [zeros_length, hr]; omega)
+    rw [List.append_assoc] at this
+    exact this
+
+/-! ### the limb-level reduction of mpn_powm -/
+
+theorem reduceL_lt (thr : Nat) (nextSize : Nat → Nat) (mp u : List Nat) (h : mp.length < thr) :
+    reduceL thr nextSize mp (mipOf thr mp) u =
+      (redc_1 u mp ((B - modlimb_invert (mp.headD 1)) % B), true) := by
+  unfold reduceL mipOf
+  rw [if_pos h, if_pos h, List.headD_cons]
+
+theorem reduceL_ge (thr : Nat) (nextSize : Nat → Nat) (mp u : List Nat) (h : ¬ mp.length < thr) :
+    reduceL thr nextSize mp (mipOf thr mp) u =
+      redcN (nextSize mp.length) u mp (toLimbs mp.length (binvert (val mp) mp.length)) := by
+  unfold reduceL mipOf
+  rw [if_neg h, if_neg h]
+
+theorem reduceL_spec (thr : Nat) (nextSize : Nat → Nat) (mp : List Nat) (hmp : Limbs mp) (hn : 1 ≤ mp.length)
+    (hodd : val mp % 2 = 1)
+    (hns : thr ≤ mp.length → mp.length ≤ nextSize mp.length ∧ nextSize mp.length < 2 * mp.length)
+    (u : List Nat) (hu : Limbs u) (hul : u.length = 2 * mp.length) :
+    (reduceL thr nextSize mp (mipOf thr mp) u).2 = true ∧
+    Limbs (reduceL thr nextSize mp (mipOf thr mp) u).1 ∧
+    (reduceL thr nextSize mp (mipOf thr mp) u).1.length = mp.length ∧
+    (val (reduceL thr nextSize mp (mipOf thr mp) u).1 * B ^ mp.length ≡ val u [MOD val mp]) ∧
+    (val u < B ^ mp.length → val (reduceL thr nextSize mp (mipOf thr mp) u).1 ≤ val mp) := by
+  have hult : val u < B ^ mp.length * B ^ mp.length := by
+    have := val_lt u hu
+    rwa [hul, two_mul, pow_add] at this
+  have hmlt := val_lt mp hmp
+  by_cases hthr : mp.length < thr
+  · have hdef : reduceL thr nextSize mp (mipOf thr mp) u =
+        (redc_1 u mp ((B - modlimb_invert (mp.headD 1)) % B), true) := reduceL_lt thr nextSize mp u hthr
+    rw [hdef]
+    have hred := reducer_spec thr mp hmp hn hodd (val u) hult
+    have hreq : reducer thr mp (val u) = val (redc_1 u mp ((B - modlimb_invert (mp.headD 1)) % B)) := by
+      unfold reducer
+      simp only [hthr, if_true]
+      rw [← hul, toLimbs_val u hu]
+    rw [hreq] at hred
+    have hm0 : mp.headD 0 % 2 = 1 := by rw [← val_mod_two]; exact hodd
+    have hhd : mp.headD 1 = mp.headD 0 := by
+      cases mp with
+      | nil => simp at hn
+      | cons a l => rfl
+    have hinv := neg_modlimb_invert_spec (mp.headD 0) hm0
+    obtain ⟨_, _, _, _, _, hL, hlen'⟩ := redc_1_identity u mp ((B - modlimb_invert (mp.headD 1)) % B) hn hu hmp hul
+      (by rw [hhd]; exact hinv)
+    exact ⟨rfl, hL, hlen', hred.2.1, hred.2.2⟩
+  · have hge : thr ≤ mp.length := by omega
+    obtain ⟨hr1, hr2⟩ := hns hge
+    have hBn1 : 1 < B ^ mp.length := by
+      have h1 : B ^ 1 ≤ B ^ mp.length := Nat.pow_le_pow_right B_pos hn
+      rw [pow_one] at h1
+      have hB : 1 < B := by simp [B_eq]
+      omega
+    have hipv : (val (toLimbs mp.length (binvert (val mp) mp.length)) * val mp) % B ^ mp.length = 1 := by
+      rw [val_toLimbs, Nat.mod_mul_mod]
+      exact binvert_spec (val mp) mp.length hn hodd
+    have hdef : reduceL thr nextSize mp (mipOf thr mp) u =
+        redcN (nextSize mp.length) u mp (toLimbs mp.length (binvert (val mp) mp.length)) :=
+      reduceL_ge thr nextSize mp u hthr
+    rw [hdef]
+    obtain ⟨hok, hval⟩ := redcN_eq (nextSize mp.length) u mp _ hu hmp hul hn hr1 hr2 hipv
+    obtain ⟨s1, s2, s3⟩ := redc_n_spec (val u) (val mp) mp.length
+      (val (toLimbs mp.length (binvert (val mp) mp.length))) (by omega) hmlt hult
+      (by rw [hipv, Nat.mod_eq_of_lt hBn1])
+    rw [hval]
+    refine ⟨hok, Limbs_toLimbs _ _, toLimbs_length _ _, ?_, ?_⟩
+    · rw [val_toLimbs_lt _ _ s1]; exact s2
+    · intro h; rw [val_toLimbs_lt _ _ s1]; exact s3 h
+
+/-- what a reduction must satisfy (the conclusion of `reduceL_spec`). -/
+def RedOK (red : List Nat → List Nat × Bool) (mp : List Nat) : Prop :=
+  ∀ u, Limbs u → u.length = 2 * mp.length →
+    (red u).2 = true ∧ Limbs (red u).1 ∧ (red u).1.length = mp.length ∧
+    (val (red u).1 * B ^ mp.length ≡ val u [MOD val mp]) ∧
+    (val u < B ^ mp.length → val (red u).1 ≤ val mp)
+
+theorem mulRed_eq (red : List Nat → List Nat × Bool) (n : Nat) (tp a b : List Nat) (h : 2 * n ≤ tp.length) :
+    mulRed red n tp a b =
+      ((red (toLimbs (2 * n) (val a * val b))).1, toLimbs (2 * n) (val a * val b) ++ tp.drop (2 * n),
+       (red (toLimbs (2 * n) (val a * val b))).2) := by
+  unfold mulRed
+  have hl : (toLimbs (2 * n) (val a * val b)).length = 2 * n := toLimbs_length _ _
+  rw [store_zero _ _ (by rw [hl]; exact h)]
+  simp only [hl]
+  rw [load_zero_append _ _ _ hl.symm]
+  simp
+
+theorem mulRed_spec (red : List Nat → List Nat × Bool) (mp : List Nat) (hred : RedOK red mp)
+    (tp a b : List Nat) (h : 2 * mp.length ≤ tp.length) (ha : Limbs a) (hb : Limbs b)
+    (hal : a.length = mp.length) (hbl : b.length = mp.length) :
+    (mulRed red mp.length tp a b).2.2 = true ∧ (mulRed red mp.length tp a b).2.1.length = tp.length ∧
+    Limbs (mulRed red mp.length tp a b).1 ∧ (mulRed red mp.length tp a b).1.length = mp.length ∧
+    (val (mulRed red mp.length tp a b).1 * B ^ mp.length ≡ val a * val b [MOD val mp]) := by
+  rw [mulRed_eq red mp.length tp a b h]
+  simp only
+  have hlt : val a * val b < B ^ (2 * mp.length) := by
+    have h1 := val_lt a ha
+    have h2 := val_lt b hb
+    rw [hal] at h1; rw [hbl] at h2
+    rw [two_mul, pow_add]; exact Nat.mul_lt_mul'' h1 h2
+  obtain ⟨r1, r2, r3, r4, _⟩ := hred (toLimbs (2 * mp.length) (val a * val b)) (Limbs_toLimbs _ _) (toLimbs_length _ _)
+  rw [val_toLimbs_lt _ _ hlt] at r4
+  refine ⟨r1, ?_, r2, r3, r4⟩
+  rw [List.length_append, toLimbs_length, List.length_drop]; omega
+
+
+/-! ### the table of odd powers and the window loop on memory -/
+
+/-- `r` holds `b^k` in Montgomery form: n proper limbs, `val r ≡ b^k·B^n (mod m)`. -/
+def Good (b : Nat) (mp : List Nat) (r : List Nat) (k : Nat) : Prop :=
+  Limbs r ∧ r.length = mp.length ∧ val r ≡ b ^ k * B ^ mp.length [MOD val mp]
+
+theorem good_mul (red : List Nat → List Nat × Bool) (mp : List Nat) (hred : RedOK red mp) (b : Nat)
+    (hcop : Nat.gcd (val mp) (B ^ mp.length) = 1)
+    (tp x y : List Nat) (j k : Nat) (h : 2 * mp.length ≤ tp.length) (hx : Good b mp x j) (hy : Good b mp y k) :
+    (mulRed red mp.length tp x y).2.2 = true ∧ (mulRed red mp.length tp x y).2.1.length = tp.length ∧
+    Good b mp (mulRed red mp.length tp x y).1 (j + k) := by
+  obtain ⟨h1, h2, h3, h4, h5⟩ := mulRed_spec red mp hred tp x y h hx.1 hy.1 hx.2.1 hy.2.1
+  refine ⟨h1, h2, h3, h4, ?_⟩
+  have e3 : val x * val y ≡ (b ^ j * B ^ mp.length) * (b ^ k * B ^ mp.length) [MOD val mp] := hx.2.2.mul hy.2.2
+  have e4 : (b ^ j * B ^ mp.length) * (b ^ k * B ^ mp.length) = (b ^ (j + k) * B ^ mp.length) * B ^ mp.length := by
+    rw [pow_add]; ring
+  rw [e4] at e3
+  exact Nat.ModEq.cancel_right_of_coprime hcop (h5.trans e3)
+
+theorem getD_set_list (pp : List (List Nat)) (k i : Nat) (r d : List Nat) (hk : k < pp.length) :
+    (pp.set k r).getD i d = if i = k then r else pp.getD i d := by
+  rw [List.getD_eq_getElem?_getD, List.getD_eq_getElem?_getD, List.getElem?_set]
+  by_cases h : k = i
+  · subst h; simp [hk]
+  · have : ¬ i = k := fun e => h e.symm
+    simp [h, this]
+
+theorem inPP_of_lt (n w i : Nat) (h : i < 2 ^ (w - 1)) : inPP n w i = true := by
+  unfold inPP
+  rw [Nat.shiftLeft_eq]
+  have : n * (i + 1) ≤ n * 2 ^ (w - 1) := Nat.mul_le_mul_left _ h
+  rw [Nat.mul_add, Nat.mul_one] at this
+  simpa using this
+
+theorem precomp_spec (red : List Nat → List Nat × Bool) (mp : List Nat) (hred : RedOK red mp) (b w : Nat)
+    (hcop : Nat.gcd (val mp) (B ^ mp.length) = 1) (b2 : List Nat) (hb2 : Good b mp b2 2) :
+    ∀ (c j : Nat) (pp : List (List Nat)) (tp : List Nat) (ok : Bool),
+      pp.length = 2 ^ (w - 1) → j + c + 1 = 2 ^ (w - 1) → 2 * mp.length ≤ tp.length → ok = true →
+      (∀ i, i ≤ j → Good b mp (pp.getD i (zeros mp.length)) (2 * i + 1)) →
+      (precomp red mp.length w b2 c j pp tp ok).2.2 = true ∧
+      (precomp red mp.length w b2 c j pp tp ok).2.1.length = tp.length ∧
+      ∀ i, i < 2 ^ (w - 1) → Good b mp ((precomp red mp.length w b2 c j pp tp ok).1.getD i (zeros mp.length)) (2 * i + 1) := by
+  intro c
+  induction c with
+  | zero =>
+    intro j pp tp ok hpl hj htp hok hgood
+    simp only [precomp]
+    exact ⟨hok, trivial, fun i hi => hgood i (by omega)⟩
+  | succ c ih =>
+    intro j pp tp ok hpl hj htp hok hgood
+    simp only [precomp]
+    obtain ⟨m1, m2, m3⟩ := good_mul red mp hred b hcop tp (pp.getD j (zeros mp.length)) b2 (2 * j + 1) 2 htp
+      (hgood j (le_refl _)) hb2
+    have hin1 := inPP_of_lt mp.length w j (by omega)
+    have hin2 := inPP_of_lt mp.length w (j + 1) (by omega)
+    have hok' : (ok && (mulRed red mp.length tp (pp.getD j (zeros mp.length)) b2).2.2 && inPP mp.length w j
+        && inPP mp.length w (j + 1)) = true := by
+      rw [hok, m1, hin1, hin2]; rfl
+    obtain ⟨r1, r2, r3⟩ := ih (j + 1) (pp.set (j + 1) (mulRed red mp.length tp (pp.getD j (zeros mp.length)) b2).1)
+      (mulRed red mp.length tp (pp.getD j (zeros mp.length)) b2).2.1 _
+      (by rw [List.length_set]; exact hpl) (by omega) (by rw [m2]; exact htp) hok'
+      (by
+        intro i hi
+        rw [getD_set_list _ _ _ _ _ (by omega)]
+        by_cases hij : i = j + 1
+        · simp only [hij, if_true]
+          have e : 2 * j + 1 + 2 = 2 * (j + 1) + 1 := by ring
+          rw [← e]; exact m3
+        · simp only [hij, if_false]
+          exact hgood i (by omega))
+    exact ⟨r1, by rw [r2, m2], r3⟩
+
+
+theorem cmp_ge_iff (r mp : List Nat) (hr : Limbs r) (hmp : Limbs mp) (hl : r.length = mp.length) :
+    cmp r mp ≥ 0 ↔ val mp ≤ val r := by
+  unfold cmp
+  have h := cmpRev_spec r.reverse mp.reverse (Limbs_reverse hr) (Limbs_reverse hmp) (by simp [hl])
+  simp only [List.reverse_reverse] at h
+  rcases h with ⟨h1, h2⟩ | ⟨h1, h2⟩ | ⟨h1, h2⟩ <;> rw [h1] <;> constructor <;> intro h3 <;> omega
+
+/-- powm.c:559-577 on a state that holds `b^e` in Montgomery form. -/
+theorem powmFinish_spec (red : List Nat → List Nat × Bool) (mp : List Nat) (hred : RedOK red mp) (hmp : Limbs mp)
+    (hn : 1 ≤ mp.length) (b e : Nat) (hcop : Nat.gcd (val mp) (B ^ mp.length) = 1) (hmpos : 0 < val mp)
+    (s : St) (hok : s.ok = true) (htp : 2 * mp.length ≤ s.tp.length) (hg : Good b mp s.rp e) :
+    (powmFinish red mp s).2 = true ∧ (powmFinish red mp s).1 = toLimbs mp.length (b ^ e % val mp) := by
+  obtain ⟨gL, gn, gc⟩ := hg
+  obtain ⟨p1, p2, p3⟩ := store_pad s.tp s.rp mp.length gn htp
+  unfold powmFinish
+  simp only [p1, p2, p3, hok, Bool.true_and]
+  have hu : Limbs (s.rp ++ zeros mp.length) := Limbs_append.mpr ⟨gL, Limbs_zeros _⟩
+  have hul : (s.rp ++ zeros mp.length).length = 2 * mp.length := by
+    rw [List.length_append, zeros_length, gn]; omega
+  have huv : val (s.rp ++ zeros mp.length) = val s.rp := val_append_zeros _ _
+  have hrlt : val s.rp < B ^ mp.length := by have := val_lt s.rp gL; rwa [gn] at this
+  obtain ⟨r1, r2, r3, r4, r5⟩ := hred (s.rp ++ zeros mp.length) hu hul
+  rw [huv] at r4 r5
+  have hle := r5 hrlt
+  have hc : val (red (s.rp ++ zeros mp.length)).1 ≡ b ^ e [MOD val mp] :=
+    Nat.ModEq.cancel_right_of_coprime hcop (r4.trans gc)
+  refine ⟨by rw [r1], ?_⟩
+  generalize (red (s.rp ++ zeros mp.length)).1 = r at *
+  by_cases hge : cmp r mp ≥ 0
+  · simp only [hge, if_true]
+    have hvm : val r = val mp := by have := (cmp_ge_iff r mp r2 hmp r3).mp hge; omega
+    obtain ⟨sv, sc, sL, sn⟩ := subNC_val r mp 0 r2 hmp r3 (by omega)
+    have hz : b ^ e % val mp = 0 := by
+      unfold Nat.ModEq at hc
+      rw [← hc, hvm, Nat.mod_self]
+    rw [hz]
+    apply eq_toLimbs _ _ _ sL (by rw [sn, r3])
+    have hlt := val_lt _ sL
+    rw [sn, r3] at hlt
+    rw [r3] at sv
+    by_cases hb : (subNC r mp 0).2 = 0
+    · rw [hb] at sv; omega
+    · have : (subNC r mp 0).2 = 1 := by omega
+      rw [this] at sv; omega
+  · simp only [hge, if_false]
+    have hlt : val r < val mp := by
+      by_contra h
+      exact hge ((cmp_ge_iff r mp r2 hmp r3).mpr (by omega))
+    apply eq_toLimbs _ _ _ r2 r3
+    unfold Nat.ModEq at hc
+    rw [← hc, Nat.mod_eq_of_lt hlt]
+
+/-- **mpn_powm on memory**: for a scratch area of at least `MAX (mpn_binvert_itch (n), 2n)` limbs
+    (powm.c:157) no access leaves `tp` or the table `pp`, the wrap-around recovery of every redc_n call
+    stays in its area, and `rp[0..n)` holds `b^e mod m`. -/
+theorem mpnPowmMem_correct (thr : Nat) (nextSize binvItch : Nat → Nat) (itch : Nat) (bp ep mp : List Nat)
+    (hep : Norm ep) (hne : ep ≠ []) (hmp : Limbs mp) (hn : 1 ≤ mp.length) (hodd : val mp % 2 = 1)
+    (hns : thr ≤ mp.length → mp.length ≤ nextSize mp.length ∧ nextSize mp.length < 2 * mp.length)
+    (hitch : 2 * mp.length ≤ itch) (hbinv : thr ≤ mp.length → binvItch mp.length ≤ itch) :
+    (mpnPowmMem thr nextSize binvItch itch bp ep mp).2 = true ∧
+    (mpnPowmMem thr nextSize binvItch itch bp ep mp).1 = toLimbs mp.length (val bp ^ val ep % val mp) := by
+  set m := val mp with hmd
+  set b := val bp with hbd
+  set red := reduceL thr nextSize mp (mipOf thr mp) with hredd
+  have hred : RedOK red mp := fun u hu hul => reduceL_spec thr nextSize mp hmp hn hodd hns u hu hul
+  have hmpos : 0 < m := by omega
+  have hmlt : m < B ^ mp.length := val_lt mp hmp
+  have hcop : Nat.gcd m (B ^ mp.length) = 1 := by
+    have : B ^ mp.length = 2 ^ (64 * mp.length) := by rw [B_eq_two_pow, ← pow_mul]
+    rw [this]; exact (coprime_two_pow_odd _ m hodd).symm
+  obtain ⟨hw1, hw63⟩ := win_size_bounds (sizeinbase2 ep)
+  set w := win_size (sizeinbase2 ep) with hw
+  have h2w : 1 ≤ 2 ^ (w - 1) := Nat.one_le_two_pow
+  -- the flag of mpn_binvert
+  have hok0 : (if mp.length < thr then true else decide (binvItch mp.length ≤ itch)) = true := by
+    by_cases h : mp.length < thr
+    · simp [h]
+    · simp only [h, if_false, decide_eq_true_eq]; exact hbinv (by omega)
+  -- the table
+  have htpl : (zeros itch).length = itch := zeros_length _
+  set pp0 := (List.replicate (2 ^ (w - 1)) (zeros mp.length)).set 0 (toLimbs mp.length ((b * B ^ mp.length) % m)) with hpp0
+  have hpp0l : pp0.length = 2 ^ (w - 1) := by rw [hpp0, List.length_set, List.length_replicate]
+  have he0 : pp0.getD 0 (zeros mp.length) = toLimbs mp.length ((b * B ^ mp.length) % m) := by
+    rw [hpp0, getD_set_list _ _ _ _ _ (by rw [List.length_replicate]; omega)]; simp
+  have hg0 : Good b mp (toLimbs mp.length ((b * B ^ mp.length) % m)) 1 := by
+    refine ⟨Limbs_toLimbs _ _, toLimbs_length _ _, ?_⟩
+    rw [val_toLimbs_lt _ _ (lt_trans (Nat.mod_lt _ hmpos) hmlt), pow_one]
+    exact Nat.mod_modEq _ _
+  obtain ⟨q1, q2, q3⟩ := good_mul red mp hred b hcop (zeros itch) _ _ 1 1 (by rw [htpl]; exact hitch) hg0 hg0
+  have htab := precomp_spec red mp hred b w hcop _ q3 (2 ^ (w - 1) - 1) 0 pp0
+    (mulRed red mp.length (zeros itch) (toLimbs mp.length ((b * B ^ mp.length) % m)) (toLimbs mp.length ((b * B ^ mp.length) % m))).2.1
+    ((if mp.length < thr then true else decide (binvItch mp.length ≤ itch)) && inPP mp.length w 0 &&
+      (mulRed red mp.length (zeros itch) (toLimbs mp.length ((b * B ^ mp.length) % m)) (toLimbs mp.length ((b * B ^ mp.length) % m))).2.2)
+    hpp0l (by omega) (by rw [q2, htpl]; exact hitch)
+    (by rw [hok0, inPP_of_lt mp.length w 0 (by omega), q1]; rfl)
+    (by
+      intro i hi
+      have : i = 0 := by omega
+      subst this
+      rw [he0]; exact hg0)
+  have htdef : powmTable red mp.length w (zeros itch) (if mp.length < thr then true else decide (binvItch mp.length ≤ itch)) b m =
+      precomp red mp.length w (mulRed red mp.length (zeros itch) (toLimbs mp.length ((b * B ^ mp.length) % m)) (toLimbs mp.length ((b * B ^ mp.length) % m))).1
+        (2 ^ (w - 1) - 1) 0 pp0
+        (mulRed red mp.length (zeros itch) (toLimbs mp.length ((b * B ^ mp.length) % m)) (toLimbs mp.length ((b * B ^ mp.length) % m))).2.1
+        ((if mp.length < thr then true else decide (binvItch mp.length ≤ itch)) && inPP mp.length w 0 &&
+          (mulRed red mp.length (zeros itch) (toLimbs mp.length ((b * B ^ mp.length) % m)) (toLimbs mp.length ((b * B ^ mp.length) % m))).2.2) := by
+    unfold powmTable
+    simp only [← hpp0, he0]
+  rw [← htdef] at htab
+  obtain ⟨t1, t2, t3⟩ := htab
+  rw [q2, htpl] at t2
+  set T := powmTable red mp.length w (zeros itch) (if mp.length < thr then true else decide (binvItch mp.length ≤ itch)) b m with hTd
+  -- the window loop
+  let Rel : St → Nat → Prop := fun s k => s.ok = true ∧ s.tp.length = itch ∧ Good b mp s.rp k
+  have hsqr : ∀ s k, Rel s k → Rel (sqrSt red mp.length s) (2 * k) := by
+    intro s k ⟨h1, h2, h3⟩
+    obtain ⟨g1, g2, g3⟩ := good_mul red mp hred b hcop s.tp s.rp s.rp k k (by rw [h2]; exact hitch) h3 h3
+    refine ⟨?_, ?_, ?_⟩
+    · simp only [sqrSt, h1, g1]; rfl
+    · simp only [sqrSt]; rw [g2, h2]
+    · simp only [sqrSt]; rw [two_mul]; exact g3
+  have hmul : ∀ s k i, i < 2 ^ (w - 1) → Rel s k →
+      Rel (mulSt red mp.length s (tableSt mp.length w T.1 T.2.1 T.2.2 i)) (k + (2 * i + 1)) := by
+    intro s k i hi ⟨h1, h2, h3⟩
+    obtain ⟨g1, g2, g3⟩ := good_mul red mp hred b hcop s.tp s.rp (T.1.getD i (zeros mp.length)) k (2 * i + 1)
+      (by rw [h2]; exact hitch) h3 (t3 i hi)
+    refine ⟨?_, ?_, ?_⟩
+    · simp only [mulSt, tableSt, h1, g1, t1, inPP_of_lt mp.length w i hi]; rfl
+    · simp only [mulSt, tableSt]; rw [g2, h2]
+    · simp only [mulSt, tableSt]; exact g3
+  have htabR : ∀ i, i < 2 ^ (w - 1) → Rel (tableSt mp.length w T.1 T.2.1 T.2.2 i) (2 * i + 1) := by
+    intro i hi
+    refine ⟨?_, t2, t3 i hi⟩
+    simp only [tableSt, t1, inPP_of_lt mp.length w i hi]; rfl
+  have hres := windowExp_rel (sqrSt red mp.length) (mulSt red mp.length) (tableSt mp.length w T.1 T.2.1 T.2.2) Rel
+    ep hep.1 hne (hep.2 hne) w hw1 hw63 hsqr hmul htabR
+  obtain ⟨f1, f2, f3⟩ := hres
+  have hfin := powmFinish_spec red mp hred hmp hn b (val ep) hcop hmpos _ f1 (by rw [f2]; exact hitch) f3
+  unfold mpnPowmMem
+  exact hfin
+
 end Mpir.PowmL
